@@ -138,6 +138,8 @@ def to_expr(v):
     if v[0] == "e":
         return v
     if v[0] == "sc":
+        if len(v) > 4 and v[4]:
+            return opaque(v[2], "reg:%s" % (v[4],), orig(v))
         return E(v[2], ("scalar", v[1]), orig(v))
     if v[0] == "k":
         return E(v[1], ("const", v[2]), orig(v))
@@ -704,11 +706,15 @@ class Shape:
         self.ev(it, env, body)
         # find the user pattern and body: innermost arm with pattern Some(pat)
         target = None
+        tpat = None
         for x in walk(n):
-            if x.get("k") == "Match" and x.get("src") == "For" and x is not n:
+            if x.get("k") == "Match" and x.get("src") == "For" and x is not n and target is None:
                 for a in x["arms"]:
-                    if a["pat"].get("k") in ("TupleStruct",) and last_seg(a["pat"]["path"].get("ctor_of") or "") == "Some":
-                        target = a
+                    p = a["pat"]
+                    if p.get("k") == "TupleStruct" and last_seg(p["path"].get("ctor_of") or "") == "Some":
+                        target, tpat = a, p
+                    elif p.get("k") == "Struct" and last_seg(p["path"].get("def") or "") == "Some" and p.get("fields"):
+                        target, tpat = a, p["fields"][0]["p"]
         if target is None:
             for a in n["arms"]:
                 for x in walk(a["body"]):
@@ -719,7 +725,7 @@ class Shape:
         if target is None:
             return ("unit",)
         e1 = dict(env)
-        self.bind(target["pat"], UNK, e1)
+        self.bind(tpat if tpat is not None else target["pat"], UNK, e1)
         self.widen(target["body"], e1)
         self.branch("loop@%s" % n.get("l"), lambda: self.ev(target["body"], e1, body))
         for k_ in list(env):
@@ -884,7 +890,12 @@ class Shape:
         # ---- fallback by result type
         t = n.get("t")
         ty = body["types"][t] if t is not None else ""
-        return self.by_type(ty)
+        v = self.by_type(ty)
+        # pure accessor of a decoder object (capstone / bad64): the same path denotes the same value
+        if method is not None and len(args) == 1 and isinstance(args[0], tuple) and args[0][0] == "obj" and d not in self.db.hir \
+                and isinstance(v, tuple) and v[0] == "obj":
+            return ("obj", "%s.%s()" % (args[0][1], name))
+        return v
 
     def by_type(self, ty):
         if "il::expression::Expression" in ty:
@@ -931,6 +942,10 @@ class Shape:
                     v = opaque(("bits", self.key("ret")), self.key("call"))
                 elif "il::scalar::Scalar" in out and "Vec" not in out and "(" not in out:
                     v = ("sc", None, ("bits", self.key("ret")), None)
+                elif (not isinstance(v, tuple) or v[0] in ("unk", "obj")) and args and "&mut" not in " ".join(cb.get("inputs") or []) \
+                        and all(isinstance(a, tuple) and a[0] == "obj" for a in args):
+                    # decoder accessor helper (details(instruction)): the same arguments denote the same object
+                    v = ("obj", "%s(%s)" % (last_seg(d), ",".join(a[1] for a in args)))
             return v
         finally:
             self.depth -= 1
@@ -993,14 +1008,16 @@ class Shape:
             self.oblige_eq("assign", dw, src[1], n, "assignment %s" % (dst[1] if isinstance(dst, tuple) and dst[0] == "sc" else "?"),
                            orig(dst), orig(src))
             self.h.ops.append({"kind": "Assign", "block": bid, "ctx": self.ctx, "line": n.get("l"), "fn": self.cur_fn,
-                               "dst": dst[1] if isinstance(dst, tuple) and dst[0] == "sc" else None, "dw": dw, "src": src})
+                               "dst": dst[1] if isinstance(dst, tuple) and dst[0] == "sc" else None, "dw": dw, "src": src,
+                               "dst_id": dst[4] if isinstance(dst, tuple) and dst[0] == "sc" and len(dst) > 4 else None})
             return ("unit",)
         if name == "load" and len(args) == 3:
             dst, addr = args[1], to_expr(args[2])
             dw = width_of(dst)
             self.mult8("load_width", dw, n, orig(dst))
             self.h.ops.append({"kind": "Load", "block": bid, "ctx": self.ctx, "line": n.get("l"), "fn": self.cur_fn,
-                               "dst": dst[1] if isinstance(dst, tuple) and dst[0] == "sc" else None, "dw": dw, "addr": addr})
+                               "dst": dst[1] if isinstance(dst, tuple) and dst[0] == "sc" else None, "dw": dw, "addr": addr,
+                               "dst_id": dst[4] if isinstance(dst, tuple) and dst[0] == "sc" and len(dst) > 4 else None})
             return ("unit",)
         if name == "store" and len(args) == 3:
             addr, src = to_expr(args[1]), to_expr(args[2])
@@ -1123,10 +1140,19 @@ class Shape:
         for arch in ("mips", "ppc"):
             pre = "translator::%s::semantics::" % arch
             if d == pre + "get_register":
+                a = args[-1] if args else None
+                if isinstance(a, tuple) and a[0] == "obj" and "()" in a[1]:
+                    return ("reg", arch, None, "%sreg:%s" % (arch, a[1]))
                 return ("reg", arch, None, self.key(arch + "reg"))
+            if d in (pre + "MipsRegister::scalar", pre + "PPCRegister::scalar", pre + "PpcRegister::scalar") and not (
+                    args and isinstance(args[0], tuple) and args[0][0] == "reg"):
+                return ("sc", None, self.col[arch], "G")
+            if d in (pre + "MipsRegister::expression", pre + "PPCRegister::expression", pre + "PpcRegister::expression") and not (
+                    args and isinstance(args[0], tuple) and args[0][0] == "reg"):
+                return opaque(self.col[arch], "reg:%s" % self.key(arch + "reg"), "G")
             if d.startswith(pre) and args and isinstance(args[0], tuple) and args[0][0] == "reg" and args[0][1] == arch:
                 if name == "scalar":
-                    return ("sc", None, self.col[arch], "G")
+                    return ("sc", None, self.col[arch], "G", args[0][3])
                 if name == "expression":
                     return opaque(self.col[arch], "reg:%s" % (args[0][3],), "G")
                 if name == "name":
